@@ -508,6 +508,7 @@ func checkC07(c *Ctx) {
 	reportHTX(c, r, map[string]bool{"HTX-L": true, "HTX-T": true, "HTX-RAW": true})
 	ruleEscSet(c, r.h)
 	ruleVocab(c, r.h)
+	ruleCharRefAlphabet(c)
 	c.Assume("html.EscapeString and the copy arithmetic of escapeHTML are trusted as sanitisers")
 	c.Assume("HTX-RAW (b),(c): the parser restricts the content of CharacterReference spans (recognised references only; see C15 isHex) and SoftLineBreak spans (line-ending bytes)")
 	c.Assume("post callbacks run iff the pre callback descended (C18 W-rules), so start and end tags pair up at run time")
@@ -536,6 +537,8 @@ func init() {
 			Old: "\tcase TextKind, UnparsedKind:\n\t\tr.dst = escapeHTML(r.dst, spanSlice(source, inline.Span()))", New: "\tcase UnparsedKind:\n\t\tr.dst = append(r.dst, spanSlice(source, inline.Span())...)\n\t\treturn false\n\tcase TextKind:\n\t\tr.dst = escapeHTML(r.dst, spanSlice(source, inline.Span()))", Expect: "HTX-RAW"},
 		Control{Name: "code-tag-left-open", Props: []string{"C07"}, File: "html_renderer.go",
 			Old: "\t\t\t\tr.dst = append(r.dst, `\"`...)\n\t\t\t}\n\t\t}\n\t\tr.dst = append(r.dst, \">\"...)\n\tcase BlockQuoteKind:", New: "\t\t\t\tr.dst = append(r.dst, `\"`...)\n\t\t\t\tr.dst = append(r.dst, \">\"...)\n\t\t\t}\n\t\t}\n\tcase BlockQuoteKind:", Expect: "HTX-L"},
+		Control{Name: "entity-scan-stops-only-at-space", Props: []string{"C07"}, File: "inlines.go",
+			Old: "\t\t\tcase !isASCIILetter(c) && !isASCIIDigit(c):\n\t\t\t\treturn -1\n\t\t\t}\n\t\t}\n\t\treturn -1\n\t}\n\n\tif text[2] == 'x'", New: "\t\t\tcase c == ' ' || c == '&':\n\t\t\t\treturn -1\n\t\t\t}\n\t\t}\n\t\treturn -1\n\t}\n\n\tif text[2] == 'x'", Expect: "CHARREF-ALPHABET"},
 		Control{Name: "neg-escapeHTML-without-quot", Props: []string{"C07"}, File: "html_renderer.go", Negative: true,
 			Old: "\t\tcase '\"':\n\t\t\tdst = append(dst, src[verbatimStart:i]...)\n\t\t\tdst = append(dst, \"&quot;\"...)\n\t\t\tverbatimStart = i + 1\n", New: ""},
 		Control{Name: "neg-htmlblock-descends-under-IgnoreRaw", Props: []string{"C07"}, File: "html_renderer.go", Negative: true,
@@ -543,4 +546,95 @@ func init() {
 		Control{Name: "neg-gt-appended-as-byte", Props: []string{"C07"}, File: "html_renderer.go", Negative: true,
 			Old: "\t\t\tr.dst = append(r.dst, `\"`...)\n\t\t}\n\t\tr.dst = append(r.dst, \">\"...)\n\tcase ImageKind:", New: "\t\t\tr.dst = append(r.dst, '\"')\n\t\t}\n\t\tr.dst = append(r.dst, '>')\n\tcase ImageKind:"},
 	)
+}
+
+// ruleCharRefAlphabet supports assumption HTX-RAW (b): the bytes of a span that becomes a CharacterReference are
+// restricted by the recogniser's scanning loops.
+func ruleCharRefAlphabet(c *Ctx) {
+	c.Rule("CHARREF-ALPHABET", "Character references are copied to the output verbatim, so their recogniser must restrict the bytes it accepts: in every scanning loop of parseCharacterEscape the loop continues only for ASCII letters and digits (exact set by BSET path-conditioning on the scanned byte), and a positive length is returned only when the scanned byte is ';'.")
+	p := c.P
+	fn := p.Func("parseCharacterEscape")
+	if !c.NeedFunc("CHARREF-ALPHABET", fn, "parseCharacterEscape") {
+		return
+	}
+	bs := newBSET(p)
+	n := 0
+	for li, l := range naturalLoops(fn) {
+		l := l
+		// the scanned byte: a load of an element indexed by something defined in the loop
+		var sym ssa.Value
+		for b := range l.body {
+			for _, in := range b.Instrs {
+				if ld, ok := in.(*ssa.UnOp); ok && ld.Op == token.MUL {
+					if ia, ok := ld.X.(*ssa.IndexAddr); ok && definedInLoop(ia.Index, &l) {
+						if bt, ok := ld.Type().Underlying().(*types.Basic); ok && bt.Kind() == types.Uint8 {
+							sym = ld
+						}
+					}
+				}
+			}
+		}
+		if sym == nil {
+			continue
+		}
+		n++
+		reach, edges := bs.reachEdgesUnderSym(fn, func(v ssa.Value) bool { return v == sym }, byteDomain())
+		cont := map[int64]bool{}
+		for _, latch := range l.latches {
+			for d := range edges[[2]int{latch.Index, l.header.Index}] {
+				cont[d] = true
+			}
+		}
+		var bad []int64
+		for d := range cont {
+			if !(d >= '0' && d <= '9' || d >= 'a' && d <= 'z' || d >= 'A' && d <= 'Z') {
+				bad = append(bad, d)
+			}
+		}
+		sort.Slice(bad, func(i, j int) bool { return bad[i] < bad[j] })
+		key := fmt.Sprintf("parseCharacterEscape:loop#%d", li+1)
+		c.Check(len(bad) == 0 && len(cont) > 0, "CHARREF-ALPHABET", key+":continues", sym.Pos(), "scanning continues past bytes that are not ASCII letters or digits: "+describeSet(bad, true))
+		// positive returns inside the loop
+		var badRet []int64
+		for b := range l.body {
+			_ = b
+		}
+		for _, b := range fn.Blocks {
+			r, ok := b.Instrs[len(b.Instrs)-1].(*ssa.Return)
+			if !ok || !l.header.Dominates(b) || b == l.header {
+				continue
+			}
+			if k, isC := constInt(r.Results[0]); isC && k < 0 {
+				continue
+			}
+			// only returns reached from inside the loop body (not the loop's normal exit)
+			fromBody := false
+			for _, pr := range b.Preds {
+				if l.body[pr] && pr != l.header {
+					fromBody = true
+				}
+			}
+			if !fromBody && !l.body[b] {
+				// may still be a few blocks after a body block; accept if dominated by a body block other than the header
+				for bb := range l.body {
+					if bb != l.header && bb.Dominates(b) {
+						fromBody = true
+					}
+				}
+			}
+			if !fromBody {
+				continue
+			}
+			for d := range reach[b] {
+				if d != ';' {
+					badRet = append(badRet, d)
+				}
+			}
+		}
+		sort.Slice(badRet, func(i, j int) bool { return badRet[i] < badRet[j] })
+		c.Check(len(badRet) == 0, "CHARREF-ALPHABET", key+":terminator", sym.Pos(), "a reference can end at a byte other than ';': "+describeSet(badRet, true))
+	}
+	if n < 3 {
+		c.Undecided("CHARREF-ALPHABET", "instance-count", fn.Pos(), fmt.Sprintf("%d scanning loops recognised in parseCharacterEscape, 3 confirmed by hand (named, hexadecimal, decimal)", n))
+	}
 }
